@@ -2,11 +2,14 @@ package main
 
 import (
 	"context"
+	"errors"
 	"fmt"
 	"runtime/debug"
 	"sort"
 	"strings"
+	"sync/atomic"
 	"time"
+	"verif/lib/recfs"
 
 	"github.com/synnaxlabs/cesium"
 	"github.com/synnaxlabs/x/confluence"
@@ -145,8 +148,27 @@ func genWCase(r *prng.R) wCase {
 			c.Ops = append(c.Ops, wOp{Kind: "close", W: i})
 			w[i].open = false
 		default:
-			c.Ops = append(c.Ops, wOp{Kind: "read"})
+			if r.Chance(1, 3) {
+				c.Ops = append(c.Ops, wOp{Kind: "faildelete"})
+			} else {
+				c.Ops = append(c.Ops, wOp{Kind: "read"})
+			}
 		}
+	}
+	if r.Chance(1, 2) {
+		// tail: everybody closes, a delete of dataB fails inside the engine, then a single
+		// writer opens the group again and writes: it is the only one and must be in control
+		for i := range w {
+			if w[i].open {
+				c.Ops = append(c.Ops, wOp{Kind: "close", W: i})
+				w[i].open = false
+			}
+		}
+		c.Ops = append(c.Ops, wOp{Kind: "open", W: 0, Groups: []int{1}, Mode: 1, Auths: []int{int(prng.Pick(r, pal))}},
+			wOp{Kind: "write", W: 0, Groups: []int{1}, N: 2}, wOp{Kind: "close", W: 0},
+			wOp{Kind: "faildelete"},
+			wOp{Kind: "open", W: 1 % c.NW, Groups: []int{1}, Mode: 1, Auths: []int{int(prng.Pick(r, pal))}},
+			wOp{Kind: "write", W: 1 % c.NW, Groups: []int{1}, N: 2}, wOp{Kind: "close", W: 1 % c.NW})
 	}
 	return c
 }
@@ -175,6 +197,10 @@ type wExec struct {
 	// coverage
 	handoffs, unauthWrites, authWrites, transfersChecked, framesChecked, readsCompared int
 	inconclusive                                                                       string
+	// failing deletes: the filesystem refuses index writes of one channel while armed
+	failPath    atomic.Value // string: path fragment whose writes fail ("" = none)
+	skipRead    map[cesium.ChannelKey]bool
+	failDeletes int
 }
 
 func keysOf(groups []int) []cesium.ChannelKey {
@@ -495,6 +521,28 @@ func (ex *wExec) step(op wOp) (string, string) {
 		}
 	case "read":
 		return ex.checkReads()
+	case "faildelete":
+		// A time-range delete of dataB that passes its control check (nobody holds the
+		// channel) and then fails inside the engine (its index file cannot be written).
+		// Control is not supposed to notice: whoever opens next is judged by the same model.
+		if len(ex.region(chDataB).Gates) > 0 || len(ex.region(chIdxB).Gates) > 0 || len(ex.persist[chDataB]) == 0 {
+			return "", ""
+		}
+		lo, hi := ex.persist[chDataB][0], ex.persist[chDataB][len(ex.persist[chDataB])-1]
+		_ = lo
+		ex.failPath.Store(fmt.Sprintf("/%d/index.domain", chDataB))
+		err := ex.db.DeleteTimeRange(ex.ctx, []cesium.ChannelKey{chDataB}, telem.TimeRange{Start: 0, End: telem.TimeStamp(hi + 1_000_000_000)})
+		ex.failPath.Store("")
+		if err == nil {
+			ex.persist[chDataB] = nil
+			return "", ""
+		}
+		ex.failDeletes++
+		if ex.skipRead == nil {
+			ex.skipRead = map[cesium.ChannelKey]bool{}
+		}
+		ex.skipRead[chDataB] = true // what a half-applied delete left is not this property's business
+		return "", ""
 	}
 	digest, frames, ok := ex.barrier()
 	if !ok {
@@ -555,6 +603,9 @@ func (ex *wExec) checkStates() (string, string) {
 
 func (ex *wExec) checkReads() (string, string) {
 	for _, k := range []cesium.ChannelKey{chIdxA, chIdxB, chDataB, chIdxS} {
+		if ex.skipRead[k] {
+			continue
+		}
 		fr, err := ex.db.Read(ex.ctx, telem.TimeRangeMax, k)
 		if err != nil {
 			ex.inconclusive = "read-error: " + err.Error()
@@ -585,13 +636,22 @@ func (ex *wExec) checkReads() (string, string) {
 
 func runWCase(c wCase) (sig, what string, ex *wExec) {
 	ctx := context.Background()
-	db, err := cesium.Open(ctx, "", cesium.WithFS(xfs.NewMem()),
+	rfs, flog := recfs.New(xfs.NewMem())
+	flog.Pause(true) // no mutation log needed, only the fault hook
+	db, err := cesium.Open(ctx, "", cesium.WithFS(rfs),
 		cesium.WithStreamingConfig(cesium.DBStreamingConfig{BufferSize: 1000, SlowConsumerTimeout: 120 * time.Second}))
 	if err != nil {
 		return "", "", &wExec{inconclusive: "open-db: " + err.Error()}
 	}
 	ex = &wExec{ctx: ctx, db: db, regions: map[cesium.ChannelKey]*mRegion{}, writers: make([]*wWriter, c.NW),
 		persist: map[cesium.ChannelKey][]int64{}, ts: 1000, q: make(chan cesium.StreamerResponse, 4096)}
+	ex.failPath.Store("")
+	flog.Fail = func(call, path string) error {
+		if fp := ex.failPath.Load().(string); fp != "" && (call == "writeat" || call == "trunc" || call == "write") && strings.Contains("/"+path, fp) {
+			return errors.New("verif: injected write failure")
+		}
+		return nil
+	}
 	chans := []cesium.Channel{
 		{Key: chIdxA, Name: "idxA", DataType: telem.TimeStampT, IsIndex: true},
 		{Key: chIdxB, Name: "idxB", DataType: telem.TimeStampT, IsIndex: true},
@@ -713,6 +773,7 @@ func layerWriter(h *harness.H) {
 		h.Count("writer_digest_transfers_checked", o.ex.transfersChecked)
 		h.Count("writer_relayed_frames_checked", o.ex.framesChecked)
 		h.Count("writer_reads_compared", o.ex.readsCompared)
+		h.Count("writer_deletes_failed_inside_the_engine", o.ex.failDeletes)
 		if o.ex.handoffs > 0 && o.ex.unauthWrites > 0 {
 			h.Distinct("writer|" + fmt.Sprint(o.wc))
 		}
